@@ -10,6 +10,8 @@ import (
 	"testing"
 
 	"github.com/vx-labs/mqtt-protocol/packet"
+	"github.com/vx-labs/wasp/v4/subscriptions"
+	"github.com/vx-labs/wasp/v4/topics"
 	"github.com/vx-labs/wasp/v4/wasp/distributed"
 	"verifharness/internal/dst"
 	"verifharness/internal/ev"
@@ -194,6 +196,120 @@ func runSharedKey(c SharedKeyCase) string {
 				return fmt.Sprintf("origin and mirror differ after the mirror received all %d broadcasts of the origin: origin %q, mirror %q", len(msgs), short(va.Retained[i:i+1]), short(vm.Retained[i:i+1]))
 			}
 		}
+	case "snapshot":
+		// writes on a node while full-state snapshots are taken from it; then nothing happens
+		// any more, one more snapshot is taken and merged by a fresh node: it must list what the
+		// node lists (a snapshot assembled during a write may or may not contain it; one taken
+		// after the last write must)
+		for r := 0; r < c.Rounds; r++ {
+			a, fresh := dst.NewNode(1), dst.NewNode(2)
+			var stop int32
+			var wg sync.WaitGroup
+			wg.Add(2)
+			go func() {
+				defer wg.Done()
+				for atomic.LoadInt32(&stop) == 0 {
+					a.State.Distributor().LocalState(false)
+				}
+			}()
+			go func() {
+				defer wg.Done()
+				for i := 0; i < 40; i++ {
+					sid := fmt.Sprintf("s%d", i%7)
+					switch i % 5 {
+					case 0:
+						a.State.SessionMetadatas().Create(sid, "client-"+sid, int64(i), nil, "mp")
+					case 1:
+						a.State.Subscriptions().Create(sid, []byte(fmt.Sprintf("mp/f%d", i%3)), 1)
+					case 2:
+						a.State.Topics().Set(&packet.Publish{Header: &packet.Header{Retain: true}, Topic: []byte(fmt.Sprintf("mp/t%d", i%4)), Payload: []byte(fmt.Sprintf("v%d", i))})
+					case 3:
+						a.State.Subscriptions().Delete(sid, []byte(fmt.Sprintf("mp/f%d", (i+1)%3)))
+					default:
+						a.State.SessionMetadatas().Delete(fmt.Sprintf("s%d", (i+3)%7))
+					}
+				}
+				atomic.StoreInt32(&stop, 1)
+			}()
+			wg.Wait()
+			fresh.State.Distributor().MergeRemoteState(a.State.Distributor().LocalState(false), false)
+			if d := dst.Diff("the node", dst.ViewOf(a), "a fresh node that merged the snapshot taken after the last write", dst.ViewOf(fresh)); d != "" {
+				return fmt.Sprintf("round %d: %s", r, d)
+			}
+		}
+	case "trieprefix-subs", "trieprefix-topics":
+		// a key P has no value of its own and exists in the trie only because a longer key below
+		// it is stored; one goroutine writes a value at P while another removes the longer key.
+		// Whatever the interleaving, afterwards P holds the value and the longer key is gone.
+		lost := 0
+		first := ""
+		b := &barrier{n: 2}
+		var wg sync.WaitGroup
+		stree := subscriptions.NewTree()
+		ttree := topics.NewTree()
+		for g := 0; g < 2; g++ {
+			wg.Add(1)
+			go func(g int) {
+				defer wg.Done()
+				for r := 0; r < c.Rounds; r++ {
+					p := []byte(fmt.Sprintf("k%d/b", r))
+					long := []byte(fmt.Sprintf("k%d/b/c", r))
+					if g == 0 {
+						// set up this round's longer key before the race
+						if c.Kind == "trieprefix-subs" {
+							stree.Upsert(long, func([]byte) []byte { return []byte("L") })
+						} else {
+							ttree.Insert(long, []byte("L"))
+						}
+					}
+					b.wait()
+					switch {
+					case g == 0 && c.Kind == "trieprefix-subs":
+						stree.Upsert(p, func([]byte) []byte { return []byte("P") })
+					case g == 0:
+						ttree.Insert(p, []byte("P"))
+					case c.Kind == "trieprefix-subs":
+						stree.Upsert(long, func([]byte) []byte { return nil })
+					default:
+						ttree.Remove(long)
+					}
+					b.wait()
+					if g == 0 {
+						var got []string
+						if c.Kind == "trieprefix-subs" {
+							stree.Walk(p, func(v []byte) {
+								if len(v) > 0 {
+									got = append(got, string(v))
+								}
+							})
+						} else {
+							var out [][]byte
+							ttree.Match(p, &out)
+							for _, v := range out {
+								got = append(got, string(v))
+							}
+						}
+						if len(got) != 1 || got[0] != "P" {
+							lost++
+							if first == "" {
+								first = fmt.Sprintf("round %d: after writing %q while %q was being removed, a look-up of %q yields %q, want [P]", r, p, long, p, got)
+							}
+						}
+						// keep the trie small
+						if c.Kind == "trieprefix-subs" {
+							stree.Upsert(p, func([]byte) []byte { return nil })
+						} else {
+							ttree.Remove(p)
+						}
+					}
+					b.wait()
+				}
+			}(g)
+		}
+		wg.Wait()
+		if lost > 0 {
+			return fmt.Sprintf("%d of %d writes at a prefix key were lost; first: %s", lost, c.Rounds, first)
+		}
 	default:
 		return "bad kind " + c.Kind
 	}
@@ -224,6 +340,10 @@ func sharedKeyCases(kind string) []SharedKeyCase {
 		{Kind: "set", Rounds: 600, BigKB: 256, Procs: 4},
 		{Kind: "set", Rounds: 3000, BigKB: 16, Procs: 16},
 		{Kind: "set", Rounds: 300, BigKB: 1024, Procs: 2},
+		{Kind: "snapshot", Rounds: 150, Procs: 4},
+		{Kind: "snapshot", Rounds: 150, Procs: 16},
+		{Kind: "trieprefix-subs", Rounds: 300000, Procs: 4},
+		{Kind: "trieprefix-topics", Rounds: 300000, Procs: 4},
 	}
 	var out []SharedKeyCase
 	for _, c := range all {
@@ -249,6 +369,9 @@ func sharedKey(t *testing.T, kind string) {
 	}
 }
 
-func TestSharedKey(t *testing.T)      { sharedKey(t, "") }
-func TestSharedKeyMerge(t *testing.T) { sharedKey(t, "merge") }
-func TestSharedKeySet(t *testing.T)   { sharedKey(t, "set") }
+func TestSharedKey(t *testing.T)           { sharedKey(t, "") }
+func TestSharedKeyMerge(t *testing.T)      { sharedKey(t, "merge") }
+func TestSharedKeySet(t *testing.T)        { sharedKey(t, "set") }
+func TestSharedKeySnapshot(t *testing.T)   { sharedKey(t, "snapshot") }
+func TestSharedKeyTrieSubs(t *testing.T)   { sharedKey(t, "trieprefix-subs") }
+func TestSharedKeyTrieTopics(t *testing.T) { sharedKey(t, "trieprefix-topics") }
